@@ -36,7 +36,7 @@ from __future__ import annotations
 import logging
 from collections import OrderedDict
 from lark import Tree
-from lark.visitors import Transformer_InPlace, Transformer, v_args
+from lark.visitors import Transformer_InPlace, Transformer_NonRecursive, Transformer, v_args
 from lark.lexer import Token
 from .parser import lark_cython
 from typing import Any
@@ -62,7 +62,7 @@ else:
 log = logging.getLogger("mappyfile")
 
 
-class MapfileTransformer(Transformer):
+class MapfileTransformer(Transformer_NonRecursive):
     def __init__(self, include_position: bool = False, include_comments: bool = False):
         self.quoter = Quoter()
         self.include_position = include_position
